@@ -142,6 +142,69 @@ def directed_cases(mm, root, seed):
     yield ("maximal3", TGen(mm, rng_for(seed, root.label, "max3"), maxdepth=3, p_opt=1.0, arr_lens=(1, 2)).gen(root.t))
 
 
+class DeepGen(TGen):
+    """Takes an optional property only when it leads back into the structure being generated
+    (recursion: SelectionRange.parent, DocumentSymbol.children ...), so depth costs nothing in width."""
+
+    def __init__(self, mm, rng, target_depth):
+        super().__init__(mm, rng, maxdepth=target_depth, p_opt=0.0, arr_lens=(1,))
+        self._stack = []
+
+    def _reaches(self, t, name, seen=None):
+        seen = seen if seen is not None else set()
+        k = t["kind"]
+        if k == "reference":
+            n = t["name"]
+            if n == name:
+                return True
+            if n in self.mm.A and n not in seen:
+                seen.add(n)
+                return self._reaches(self.mm.A[n]["type"], name, seen)
+            return False
+        if k == "array":
+            return self._reaches(t["element"], name, seen)
+        if k == "or":
+            return any(self._reaches(i, name, seen) for i in t["items"])
+        return False
+
+    def gen(self, t, d=0, steps=None):
+        if t["kind"] == "or" and self._stack and d < self.maxdepth:
+            for x, i in enumerate(t["items"]):
+                if self._reaches(i, self._stack[-1]):
+                    return ("or", x, self.gen(i, d))
+        return super().gen(t, d, steps)
+
+    def obj(self, owner, props, d, steps=None):
+        out = {}
+        self._stack.append(owner)
+        try:
+            for k, p in props.items():
+                rec = owner in self.mm.S and self._reaches(p["type"], owner)
+                if p.get("optional") and not (rec and d < self.maxdepth):
+                    continue
+                out[k] = self.gen(p["type"], d + 1)
+        finally:
+            self._stack.pop()
+        return ("obj", owner, out)
+
+
+_REC = {}
+
+
+def recursive_structs(mm):
+    if id(mm) not in _REC:
+        g = DeepGen(mm, rng_for("x"), 1)
+        _REC[id(mm)] = [n for n in mm.S if any(g._reaches(p["type"], n) for p in mm.flat_props(n).values())]
+    return _REC[id(mm)]
+
+
+def big_cases(mm, root, seed):
+    """LARGE / DEEP inputs: long arrays and maps at the first level, recursion 40 levels deep."""
+    yield ("wide", TGen(mm, rng_for(seed, root.label, "wide"), maxdepth=1, p_opt=1.0, arr_lens=(130,)).gen(root.t))
+    if root.kind == "S" and root.name in recursive_structs(mm):
+        yield ("deep40", DeepGen(mm, rng_for(seed, root.label, "deep"), 40).gen(root.t))
+
+
 def random_cases(mm, root, seed, n, **kw):
     for i in range(n):
         g = TGen(mm, rng_for(seed, root.label, "rnd", i), maxdepth=1 + i % 8, p_opt=[0.2, 0.5, 0.8, 1.0, 0.35, 0.65, 0.1][i % 7], **kw)
@@ -169,6 +232,8 @@ def all_cases(mm, root, seed, tier, n_random=None, forced=True):
     if n_random is None:
         n_random = 24 if tier == "quick" else 400
     for lab, tree in random_cases(mm, root, seed, n_random):
+        yield (lab, tree, None, None)
+    for lab, tree in big_cases(mm, root, seed):
         yield (lab, tree, None, None)
     if forced:
         yield from forced_cases(mm, root, seed)
